@@ -231,6 +231,32 @@ pub fn history(cx: &mut Ctx, family: &str, maxops: u64) {
             }
             return;
         }
+        "churn" => {
+            // sliding window: grow, drain the oldest, then remove-oldest / insert-new at constant
+            // size: tables full of tombstones, main table "full" with few live elements
+            h.universe = 1 << 40;
+            cx.dump_every = 0;
+            let hbk = hb_for(cx, &[3, 4, 0]);
+            { let c0 = *cx.rng.pick(&[0usize, 0, 7, 28]); op_new(cx, 0, hbk, c0); }
+            let peak = 40 + cx.rng.below(maxops / 8 + 1);
+            let keep = 4 + cx.rng.below(peak / 2);
+            let mut lo_k = 0u64;
+            let mut hi_k = 0u64;
+            while hi_k < peak && !cx.abort { op_insert(cx, 0, hi_k, None); hi_k += 1; }
+            while hi_k - lo_k > keep && !cx.abort { op_remove(cx, 0, false, lo_k); lo_k += 1; }
+            let mut n = 0;
+            while n < maxops && !cx.abort {
+                { let e = cx.rng.chance(1, 2); op_remove(cx, 0, e, lo_k); } lo_k += 1;
+                match cx.rng.below(8) {
+                    0 => { let steps = entry_chain(cx, false, false, false); op_entry(cx, 0, hi_k, steps, None); if !cx.refs[0].as_ref().unwrap().contains_key(&hi_k) { op_insert(cx, 0, hi_k, None); } }
+                    1 => { let k = lo_k + cx.rng.below(hi_k - lo_k + 1); let v = cx.rng.below(3); op_get(cx, 0, v, k); op_insert(cx, 0, hi_k, None); }
+                    _ => { op_insert(cx, 0, hi_k, None); }
+                }
+                hi_k += 1;
+                n += 2;
+            }
+            return;
+        }
         "fuse" => h.fuse_p = 3,
         _ => {}
     }
